@@ -857,14 +857,30 @@ Definition case_t := (tree * list N * nat * list (list nat * N * owner) * list (
 Definition chk_R (t : tree) (q : list nat * N * owner) : bool :=
   let '(p, x, o) := q in
   match py_owner_at t p x with Some o' => owner_eqb o o' | None => false end.
-(* (I): the read is in the domain of C05_owner_agrees and every owner observed on the real code is one
-   the implementation model predicts *)
+(* (I): the read is in the domain of C05_owner_agrees, every owner observed on the real code is one the
+   implementation model predicts, and (C05_owner_exists) supp reports some binding exactly when the model
+   predicts one - except for names local to the reading scope, where it depends on the flow position *)
+Definition isnil {A} (l : list A) : bool := match l with [] => true | _ => false end.
+Definition flow_sensitive (fs : list frame) (x : N) : bool :=
+  match rev fs with a :: _ => is_local cfg_fixed a x | [] => false end.
 Definition chk_I (e : env) (t : tree) (q : list nat * N * list owner) : bool :=
   let '(p, x, obs) := q in
   match chain t p with
   | Some fs => shape_ok fs && nonlocal_ok fs x && in_domain fs x &&
-      (let pred := supp_owners cfg_fixed e fs x in forallb (fun o => existsb (owner_eqb o) pred) obs)
+      (let pred := supp_owners cfg_fixed e fs x in
+       forallb (fun o => existsb (owner_eqb o) pred) obs &&
+       (flow_sensitive fs x || Bool.eqb (isnil obs) (isnil pred)))
   | None => false
+  end.
+(* 0 both non-empty, 1 both empty, 2 flow-sensitive (not compared), 3 mismatch *)
+Definition exist_class (e : env) (t : tree) (q : list nat * N * list owner) : nat :=
+  let '(p, x, obs) := q in
+  match chain t p with
+  | Some fs =>
+      if flow_sensitive fs x then 2
+      else let pred := supp_owners cfg_fixed e fs x in
+           if Bool.eqb (isnil obs) (isnil pred) then (if isnil obs then 1 else 0) else 3
+  | None => 3
   end.
 Definition env_fast (bi : list N) (t : tree) (n : nat) : env :=
   let gl := filter (tree_grouted t) (names_upto n) in Env (fun x => mem x bi) (fun x => mem x gl).
@@ -874,6 +890,11 @@ Definition check_case (c : case_t) : bool :=
 Definition bad_queries (c : case_t) : list nat * list nat :=
   let '(t, bi, n, rq, iq) := c in
   let e := env_fast bi t n in (bad_idx (chk_R t) rq, bad_idx (chk_I e t) iq).
+Definition count_class (k : nat) (l : list nat) : N := N.of_nat (List.length (filter (Nat.eqb k) l)).
+Definition exist_counts (cs : list case_t) : N * N * N * N :=
+  let cl := flat_map (fun c : case_t => let '(t, bi, n, rq, iq) := c in
+                        let e := env_fast bi t n in map (exist_class e t) iq) cs in
+  (count_class 0 cl, count_class 1 cl, count_class 2 cl, count_class 3 cl).
 '''
 
 KIND_TERM = {K_MODULE: 'KModule', K_FUNC: 'KFunction', K_LAMBDA: 'KLambda', K_CLASS: 'KClass'}
@@ -991,11 +1012,19 @@ def coq_check(ctx, cases):
         groups.append(cur)
     for g in groups:
         pre = PRELUDE + '\nDefinition cases__ : list case_t := [\n%s].\n' % ';\n'.join(terms[i] for i in g)
-        jobs.append((['Model.Scopes'], pre, ['bad_idx check_case cases__']))
+        jobs.append((['Model.Scopes'], pre, ['bad_idx check_case cases__', 'exist_counts cases__']))
     res = ctx.coq_eval_many(jobs, timeout=900)
     failing = []
+    ex = [0, 0, 0, 0]
     for g, r in zip(groups, res):
         failing.extend(g[i] for i in r[0])
+        (a, b, c_), d = r[1][0], r[1][1]
+        for k, v in enumerate((a, b, c_, d)):
+            ex[k] += v
+    ctx.coverage['existence'] = {
+        'rule': 'per distinct (scope, name, observation) read: supp reports some binding exactly when supp_owners '
+                '(Coq) is non-empty (C05_owner_exists); names local to the reading scope are flow-sensitive and not compared',
+        'both_nonempty': ex[0], 'both_empty': ex[1], 'flow_sensitive_not_compared': ex[2], 'mismatch': ex[3]}
     out = {}
     if failing:
         jobs = [(['Model.Scopes'], PRELUDE, ['bad_queries %s' % terms[i]]) for i in failing[:40]]
